@@ -9,7 +9,7 @@ Local Open Scope Z_scope.
 
 Definition children (n : node) : list node :=
   match n with
-  | NCond _ ch | NBlock _ _ ch | NLoopRange _ _ _ _ ch
+  | NCond _ ch | NCondOK _ _ ch | NBlock _ _ ch | NLoopRange _ _ _ _ ch
   | NLoopCount _ _ _ _ _ _ _ _ ch | NSwitch _ ch => ch
   | _ => []
   end.
@@ -22,6 +22,9 @@ Section NodeInd.
     step n
       (match n return Forall P (children n) with
        | NCond _ ch =>
+         (fix go (l : list node) : Forall P l :=
+            match l with [] => Forall_nil P | x :: r => Forall_cons x (node_ind' x) (go r) end) ch
+       | NCondOK _ _ ch =>
          (fix go (l : list node) : Forall P l :=
             match l with [] => Forall_nil P | x :: r => Forall_cons x (node_ind' x) (go r) end) ch
        | NBlock _ _ ch =>
@@ -300,6 +303,12 @@ Section Node1.
         repeat match goal with H : Forall _ (_ :: _) |- _ => inversion H; clear H; subst end;
         repeat brk; try leaf;
         match goal with H : NodeInv _ ?ch |- Inv_out (wn ?ch _ _) => apply H, Hw end.
+    - (* NCondOK: whatever the chosen branch raises is what the node returns *)
+      pose proof (Deep_Forall _ _ IH) as IH'.
+      destruct child as [|ch1 [|ch2 rest]];
+        repeat match goal with H : Forall _ (_ :: _) |- _ => inversion H; clear H; subst end;
+        repeat brk; try leaf;
+        match goal with H : NodeInv _ ?ch |- Inv_out (wn ?ch _ _) => apply H, Hw end.
     - (* NBlock *)
       apply walk_inv; [apply Deep_Forall, IH|exact Hw].
     - (* NLoopRange *)
@@ -328,8 +337,6 @@ Section Node1.
       destruct (inc t _) as [[[c1 out] [e|]]|]; try leaf.
       pose proof (wrw_ok w out Hw) as A. destruct (wr_write w out) as [w1 ok].
       destruct A as [[A1 A2]|A]; cbn [fst snd] in *; destruct ok; try discriminate; okc.
-    - (* NOther *)
-      repeat brk; leaf.
   Qed.
 
   Lemma run_nodes_inv l : forall c w, okw w -> Inv_out (rn l c w).
@@ -361,6 +368,12 @@ Theorem fault_node flits lookup budget inc n c w c' w' e :
   w_failed w = false -> write_node flits lookup budget inc n c w = Out c' w' e ->
   w_failed w' = true -> e = Some EWriter.
 Proof. intros Hw E. pose proof (node_inv flits lookup budget inc n c w Hw) as H. rewrite E in H. exact H. Qed.
+
+(* the instance for if-ok blocks (where the engine used to swallow errors raised inside) *)
+Corollary fault_node_condok flits lookup budget inc k ci child c w c' w' e :
+  w_failed w = false -> write_node flits lookup budget inc (NCondOK k ci child) c w = Out c' w' e ->
+  w_failed w' = true -> e = Some EWriter.
+Proof. apply fault_node. Qed.
 
 Theorem fault_nodes flits lookup budget inc l c w c' w' e :
   w_failed w = false -> run_nodes flits lookup budget inc l c w = Out c' w' e ->
@@ -692,6 +705,12 @@ Section NodeHSec.
         repeat match goal with H : Forall _ (_ :: _) |- _ => inversion H; clear H; subst end;
         repeat brkH; try (first [exact I|apply Hhere]);
         match goal with H : NodeH _ ?ch |- Hfrom _ (wn ?ch _ _) => apply H, Hw end.
+    - (* NCondOK *)
+      pose proof (Deep_Forall _ _ IH) as IH'.
+      destruct child as [|ch1 [|ch2 rest]];
+        repeat match goal with H : Forall _ (_ :: _) |- _ => inversion H; clear H; subst end;
+        repeat brkH; try (first [exact I|apply Hhere]);
+        match goal with H : NodeH _ ?ch |- Hfrom _ (wn ?ch _ _) => apply H, Hw end.
     - (* NBlock *) apply walk_H; [apply Deep_Forall, IH|exact Hw].
     - (* NLoopRange *)
       pose proof (deep_loop_body _ _ IH) as Hb. pose proof (deep_loop_else _ _ IH) as He.
@@ -716,7 +735,6 @@ Section NodeHSec.
       destruct (lookup tpls) as [t|]; [|apply Hhere].
       destruct (inc t _) as [[[c1 out] [e|]]|]; try (first [exact I|apply Hhere]).
       rewrite (wr_write_push _ _ Hw). apply Hfrom_push.
-    - (* NOther *) repeat brkH; first [exact I|apply Hhere].
   Qed.
 
   Lemma run_nodes_H l : forall c w, healthy w -> Hfrom w (rn l c w).
@@ -1134,6 +1152,12 @@ Section NodeSSec.
         repeat match goal with H : Forall _ (_ :: _) |- _ => inversion H; clear H; subst end;
         repeat brkS; try (first [reflexivity|apply Hhere]);
         match goal with H : NodeS _ ?ch |- SimOut (wn ?ch _ _) _ => apply H, Hs end.
+    - (* NCondOK *)
+      pose proof (Deep_Forall _ _ IH) as IH'.
+      destruct child as [|ch1 [|ch2 rest]];
+        repeat match goal with H : Forall _ (_ :: _) |- _ => inversion H; clear H; subst end;
+        repeat brkS; try (first [reflexivity|apply Hhere]);
+        match goal with H : NodeS _ ?ch |- SimOut (wn ?ch _ _) _ => apply H, Hs end.
     - (* NBlock *) apply walk_sim; [exact nH|apply Deep_Forall, IH|exact Hs].
     - (* NLoopRange *)
       pose proof (deep_loop_body _ _ IH) as Hb. pose proof (deep_loop_else _ _ IH) as He.
@@ -1170,7 +1194,6 @@ Section NodeSSec.
       destruct (wr_write wf out) as [wf1 ok]. cbn [fst snd] in A.
       destruct A as [[-> A]|(-> & A1 & A2)]; [apply simout_sync, A|].
       apply simout_failed; [exact A1|reflexivity|exact A2].
-    - (* NOther *) repeat brkS; first [reflexivity|apply Hhere].
   Qed.
 
   Lemma run_nodes_sim l : forall c wf wh, sync wf wh -> SimOut (rn l c wf) (rn l c wh).
